@@ -376,11 +376,11 @@ pub fn execute_with(case: &CaseA, en: &En, obs: &mut Obs, mapper: &mut dyn Stepp
         for e in &res.events { if let Released(x) = e {
           let ok1 = x == k || in_effect_before.iter().any(|i| { let m = &l.mappings[*i]; m.from.contains(k) && m.to.contains(x) });
           if !ok1 { return vio("C05b-unrelated", si, format!("release of {} lifted unrelated key {}", key_name(k), key_name(x))); }
-          if !has_abs && r.in_effect.iter().any(|i| l.mappings[*i].to.contains(x)) { return vio("C05b-stillused", si, format!("release of {} lifted {} which a mapping remaining in effect outputs", key_name(k), key_name(x))); }
+          if r.in_effect.iter().any(|i| l.mappings[*i].to.contains(x)) { return vio("C05b-stillused", si, format!("release of {} lifted {} which a mapping remaining in effect outputs", key_name(k), key_name(x))); }
         } }
       }
       // (c) a mapping that stays in effect keeps its exclusive outputs
-      if !has_abs {
+      if true {
         if matches!(&ro, RefOutcome::Fired(i) if l.mappings[*i].repeat != Repeat::Normal) { norepeat_fired_since = r.in_effect.clone(); }
         for i in &in_effect_before { if r.in_effect.contains(i) {
           let m = &l.mappings[*i];
